@@ -170,7 +170,8 @@ class Sym:
     size = 1
     base = None
     dtype = np.dtype(object)
-    flags = None
+    flags = np.float64(0).flags  # what a NumPy scalar reports: contiguous, owns data, not writeable
+    strides = ()
     T = property(lambda s: s)
     real = property(lambda s: s)
 
